@@ -6,6 +6,7 @@ import (
 	"math/rand"
 	"path/filepath"
 	"sort"
+	"strings"
 
 	intoto "github.com/in-toto/in-toto-golang/in_toto"
 
@@ -39,9 +40,10 @@ func subRules(l [][]string, d map[string]string) [][]string {
 }
 
 func refSubstituteLayout(l intoto.Layout, d map[string]string) intoto.Layout {
-	b, _ := json.Marshal(l)
-	var out intoto.Layout
-	json.Unmarshal(b, &out)
+	// a copy that keeps every byte (a copy through JSON would rewrite text that is not valid UTF-8)
+	out := l
+	out.Steps = append([]intoto.Step(nil), l.Steps...)
+	out.Inspect = append([]intoto.Inspection(nil), l.Inspect...)
 	if len(d) == 0 {
 		return out
 	}
@@ -98,7 +100,19 @@ func dropEmpty(v any) any {
 	return v
 }
 
-var c18Pieces = []string{"{", "}", "A", "B", "_", "-", "x", "{A}", "{B}", "{AB}", "{{A}}", "{A}{B}", "{}", "{C}", "{A", "B}", "{a}", "{A-1}", "{x_y}", " ", "/", "*"}
+var c18Pieces = []string{"{", "}", "A", "B", "_", "-", "x", "{A}", "{B}", "{AB}", "{{A}}", "{A}{B}", "{}", "{C}", "{A", "B}", "{a}", "{A-1}", "{x_y}", " ", "/", "*",
+	// bytes that are not valid UTF-8 (a Latin-1 file name, a lone continuation byte): text is bytes
+	"caf\xe9", "\x80", "\xff{A}"}
+
+// rawNorm renders a layout with every string Go-quoted (so that bytes which JSON cannot carry stay
+// visible) and with nil and empty collections made equal.
+func rawNorm(l intoto.Layout) string {
+	s := fmt.Sprintf("%#v", l)
+	for _, t := range []string{"[]string", "[][]string", "[]in_toto.CertificateConstraint", "[]in_toto.Step", "[]in_toto.Inspection", "map[string]in_toto.Key"} {
+		s = strings.ReplaceAll(s, t+"(nil)", t+"{}")
+	}
+	return s
+}
 
 func c18Text(r *rand.Rand) string {
 	s := ""
@@ -227,6 +241,11 @@ func runC18(c *core.Ctx) {
 				detail["implementation"] = json.RawMessage(gotJ)
 				detail["reference"] = json.RawMessage(wantJ)
 				c.Violation("substituted layout differs from the reference substitution", id, detail)
+				break
+			}
+			if gr, wr := rawNorm(got), rawNorm(want); gr != wr {
+				detail["implementation_go_quoted"], detail["reference_go_quoted"] = gr, wr
+				c.Violation("substituted layout differs from the reference substitution in bytes that are not valid UTF-8 (text outside / around the markers was rewritten)", id, detail)
 				break
 			}
 			if rep == 0 {
@@ -449,7 +468,7 @@ func init() {
 	core.Register(&core.Property{
 		ID:    "C18",
 		Level: "exploration",
-		Rule: "seeded layouts whose rule tokens, command tokens, run tokens and (as decoys) names, readme, expires, pubkeys, keys and certificate constraints are glued from the pieces { } A B _ - x {A} {B} {AB} {{A}} {A}{B} {} {C} {A B} {a} {A-1} {x_y}; dictionaries of 0-6 entries with values that contain markers, braces and empty strings, invalid names (space, dot, brace, empty, newline, slash, $; plus a sweep of every ASCII character alone / inside / in front / at the end of a name, alone and next to a valid name); every dictionary is rebuilt 8x in shuffled insertion order; the whole returned layout is compared with the reference substitution (one left-to-right scan, the four field families only). Sequences: families of dictionaries whose glued names/values coincide, applied in 4 orders x 3 rounds in one process. End-to-end: 11 dictionaries (two of them with values that are markers of other supplied parameters, where a second pass would flip the verdict or rename the file the inspection creates) x 2 wrappers x 2 entry points on a chain whose rules/command/run contain markers: verdict and executed inspection command must equal those of the pre-substituted re-signed layout. " +
+		Rule: "seeded layouts whose rule tokens, command tokens, run tokens and (as decoys) names, readme, expires, pubkeys, keys and certificate constraints are glued from the pieces (incl. byte sequences that are not valid UTF-8) { } A B _ - x {A} {B} {AB} {{A}} {A}{B} {} {C} {A B} {a} {A-1} {x_y}; dictionaries of 0-6 entries with values that contain markers, braces and empty strings, invalid names (space, dot, brace, empty, newline, slash, $; plus a sweep of every ASCII character alone / inside / in front / at the end of a name, alone and next to a valid name); every dictionary is rebuilt 8x in shuffled insertion order; the whole returned layout is compared with the reference substitution (one left-to-right scan, the four field families only). Sequences: families of dictionaries whose glued names/values coincide, applied in 4 orders x 3 rounds in one process. End-to-end: 11 dictionaries (two of them with values that are markers of other supplied parameters, where a second pass would flip the verdict or rename the file the inspection creates) x 2 wrappers x 2 entry points on a chain whose rules/command/run contain markers: verdict and executed inspection command must equal those of the pre-substituted re-signed layout. " +
 			"non-trivial = the reference substitution changes the layout; distinct = hash of (layout, dictionary)",
 		Assumptions: []string{"parameter names with non-ASCII letters are not judged (the statement says 'letters')", "nil and empty lists are considered equal when comparing layouts"},
 		Workers:     func(string) int { return 16 },
